@@ -97,6 +97,16 @@ template<class P> static void run_grammar(const char* name, const P& p, const st
             std::free(block);
             std::ostringstream e3; auto r3 = p.parse(po, string_buffer(std::string(in)), e3);
             ++g_checks; if (r1 != r2 || r1 != r3) fail(in, "buffer kinds disagree: user " + show(r1) + ", string_view " + show(r2) + ", string " + show(r3));
+            if (opt == 0) {
+                // buffer objects are values: a copy and a moved-to object must be self-contained (the original is destroyed and its storage overwritten before parsing)
+                auto* orig = new string_buffer(std::string(in) + std::string(40, '#'));          // long enough not to sit in a small-string buffer
+                std::ostringstream ew, ec, em, ev; std::optional<int> want = p.parse(po, *orig, ew);
+                string_buffer copy(*orig); auto* orig2 = new string_buffer(std::string(in) + std::string(40, '#')); string_buffer moved(std::move(*orig2));
+                delete orig; delete orig2; { std::string scribble(in.size() + 40, '\x01'); (void)scribble; }
+                std::vector<string_buffer> vec; vec.emplace_back(std::string(in) + std::string(40, '#')); for (int k = 0; k < 8; ++k) vec.emplace_back(std::string("1+1") + std::string(40, '#'));   // reallocation moves the first element
+                auto rc = p.parse(po, copy, ec); auto rm = p.parse(po, moved, em); auto rv = p.parse(po, vec.front(), ev);
+                ++g_checks; if (rc != want || rm != want || rv != want) fail(in, "a copied / moved string_buffer parses differently from the original: copy " + show(rc) + ", moved " + show(rm) + ", element of a grown vector " + show(rv) + ", original " + show(want));
+            }
             ++g_checks; if (e1.str() != e2.str() || e1.str() != e3.str()) fail(in, "messages differ between buffer kinds");
             if (opt == 0) {
                 // the verbose path has its own reads (character names, lexeme text): same oracles
